@@ -2,7 +2,7 @@
    default; a wrapped callback runs after the default effect succeeded. *)
 From Coq Require Import String List Bool Arith.
 From Verif Require Import Base.ListX Base.Json Base.Free Pub.Events Pub.Calls Pub.Value Pub.EffectSpec Pub.Util Pub.SideEffect Pub.Fed Pub.Monitors.
-From Verif Require Import Proofs.OnlyProofs Proofs.OrderProofs Proofs.DeliveryProofs Proofs.ForwardIffProofs Proofs.TargetProofs Proofs.StoreProofs Proofs.FollowProofs Proofs.EffectProofs Proofs.FedProofs.
+From Verif Require Import Proofs.OnlyProofs Proofs.OrderProofs Proofs.DeliveryProofs Proofs.ForwardIffProofs Proofs.TargetProofs Proofs.StoreProofs Proofs.FollowProofs Proofs.AcceptProofs Proofs.EffectProofs Proofs.FedProofs.
 Import ListNotations.
 Open Scope string_scope.
 Open Scope list_scope.
@@ -187,6 +187,36 @@ Theorem C04_response_shape : forall k actor a r,
   jget "object" (response_activity k actor a r) = Some a.
 Proof. intros k actor a r. split; [apply response_type|split; [apply response_actor|apply response_object]]. Qed.
 
+(* ---- an Accept, for EVERY environment: without a Follow of this actor among its objects nothing is stored; with one, the
+   Accept succeeds only if the STORED Follow is a Follow by this actor naming every accepting actor, and then exactly the
+   following collection is rewritten with the accepting actors in front; in every failing verification nothing is stored.
+   Undo, Reject and Block store nothing. ---- *)
+Theorem C04_accept_no_follow_nothing : forall env cfg inbox a,
+  (object_required a = true \/ exists actor, env (EDb "ActorForInbox" [JStr inbox]) = AIri actor /\
+                                            res_env env (find_my_follow inbox actor (elems0 "object" a)) = Ok None) ->
+  S env (accept cfg inbox a) = [].
+Proof. exact accept_no_follow_nothing. Qed.
+Theorem C04_accept_verified_effects : forall env cfg inbox a actor follow_id,
+  env (EDb "ActorForInbox" [JStr inbox]) = AIri actor ->
+  res_env env (find_my_follow inbox actor (elems0 "object" a)) = Ok (Some follow_id) ->
+  res_env env (accept cfg inbox a) = Ok tt ->
+  exists al t accept_ids follow_objs following,
+    elems "actor" a = Some al /\ env (EDb "Get" [JStr follow_id]) = AJson t /\
+    follow_verified actor al t accept_ids follow_objs /\
+    env (EDb "Following" [JStr actor]) = AJson following /\
+    S env (accept cfg inbox a) = [EDb "Update" [canon (set_elems "items" (map JStr (rev accept_ids) ++ elems0 "items" following) following)]].
+Proof. exact accept_verified_effects. Qed.
+Theorem C04_accept_unverified_nothing : forall env cfg inbox a actor follow_id,
+  env (EDb "ActorForInbox" [JStr inbox]) = AIri actor ->
+  res_env env (find_my_follow inbox actor (elems0 "object" a)) = Ok (Some follow_id) ->
+  ~ (exists al t accept_ids follow_objs, elems "actor" a = Some al /\ env (EDb "Get" [JStr follow_id]) = AJson t /\
+                                         follow_verified actor al t accept_ids follow_objs) ->
+  (forall u, res_env env (accept cfg inbox a) <> Ok u) /\ S env (accept cfg inbox a) = [].
+Proof. exact accept_unverified_nothing. Qed.
+Theorem C04_undo_reject_block_store_nothing : forall env cfg inbox a,
+  S env (undo cfg inbox a) = [] /\ S env (reject cfg a) = [] /\ S env (Fed.block cfg a) = [].
+Proof. intros env cfg inbox a. split; [apply undo_stores_nothing|split; [apply reject_stores_nothing|apply fed_block_stores_nothing]]. Qed.
+
 Print Assumptions C04_factor.
 Print Assumptions C04_wrapped_after_effect.
 Print Assumptions C04_like_owned_only.
@@ -210,3 +240,7 @@ Print Assumptions C04_follow_not_me_nothing.
 Print Assumptions C04_follow_accept_effects.
 Print Assumptions C04_follow_reject_effects.
 Print Assumptions C04_response_shape.
+Print Assumptions C04_accept_no_follow_nothing.
+Print Assumptions C04_accept_verified_effects.
+Print Assumptions C04_accept_unverified_nothing.
+Print Assumptions C04_undo_reject_block_store_nothing.
